@@ -325,6 +325,45 @@ SYMBOLS = ["a", "Z", "0", "_", "/", "\n", "\r", "\x00", "'", '"', "(", ")", ";",
            "\u0430", "$", "*", "\x7f", "\u200b", "\ufeff"]
 
 
+def _ascii_alnum(txt):
+    return bool(txt) and all(c.isascii() and c.isalnum() for c in txt)
+
+
+def unicode_lookalikes():
+    """non-ASCII characters of the BMP that software tends to mistake for ASCII letters / digits:
+    fold  -- lower() / upper() / casefold() (combining marks dropped) is ASCII alphanumeric: what re.IGNORECASE in Unicode
+             mode matches against [a-z] (U+0130, U+0131, U+017F, U+212A) and the multi-letter foldings;
+    nfkc  -- NFKC-normalises to ASCII alphanumerics (fullwidth, circled, super/subscript, letterlike ...: Python's identifier
+             normalisation);
+    digit -- str.isdigit();  comb -- combining marks"""
+    import unicodedata
+    fold, nfkc, digit, comb = [], [], [], []
+    for cp in range(128, 0x10000):
+        if 0xD800 <= cp <= 0xDFFF:
+            continue
+        c = chr(cp)
+        for f in (c.lower(), c.upper(), c.casefold()):
+            f = "".join(x for x in f if not unicodedata.category(x).startswith("M"))
+            if _ascii_alnum(f):
+                fold.append(c)
+                break
+        if _ascii_alnum(unicodedata.normalize("NFKC", c)):
+            nfkc.append(c)
+        if c.isdigit():
+            digit.append(c)
+        if unicodedata.category(c) in ("Mn", "Mc", "Me"):
+            comb.append(c)
+    for c in ("\u0131", "\u0130", "\u017f", "\u212a"):
+        if c not in fold:
+            fold.append(c)
+    return dict(fold=fold, nfkc=nfkc, digit=digit, comb=comb)
+
+
+LOOKALIKE_SAMPLE = ["\uff3a", "\uff10", "\U0001d7ce", "\U0001d4ea", "\u0301", "\u0308", "\u20dd", "\u0663", "\u0969", "\u07c3",
+                    "\u0e53", "\u00b2", "\u2460", "\u2167", "\u00ba", "\u00b5", "\u2102", "\u24d0", "\u2113", "\u041a", "\u03bf",
+                    "\u1d2c", "\u2090", "\uff3f", "\u203f", "\u00b7", "\u0387"]
+
+
 def trip_payloads(trip):
     # the path is spelled in hex so that neither "/" -> "_" nor quoting can defuse the payload
     call = "open(bytes.fromhex('%s').decode(),'w')" % trip.encode().hex()
@@ -424,6 +463,29 @@ class Gen:
                     yield route, mutate(rnd, "seg/" + self.fresh(), sym, where), [("string", "f")], "sym-type-name"
                     yield route, "t/" + self.fresh(), [("string", mutate(rnd, "fld", sym, where))], "sym-field-name"
                     yield route, "t/" + self.fresh(), [("varint", "ok"), (mutate(rnd, "string", sym, where), "f")], "sym-field-type"
+        # 1b. characters that case-fold to ASCII letters (what IGNORECASE would let through), at EVERY position of a field
+        #     name and of a type name, every route; a sample of other look-alikes likewise
+        ul = unicode_lookalikes()
+        for ch in ul["fold"] + LOOKALIKE_SAMPLE:
+            for route in ROUTES:
+                host = "fild"
+                for pos in range(len(host) + 1):
+                    yield route, "t/" + self.fresh(), [("string", host[:pos] + ch + host[pos:])], "casefold-field-name"
+                host = "tst/tye"
+                for pos in range(len(host) + 1):
+                    yield route, host[:pos] + ch + host[pos:], [("string", "f")], "casefold-type-name"
+            yield "ctor", "t/" + self.fresh(), [("string", "f" + ch + "le")], "casefold-field-name-replaced"
+            yield "frame", "test/ty" + ch + "e", [("string", "f")], "casefold-type-name-replaced"
+        if thorough:
+            full = dedup(ul["nfkc"] + ul["digit"] + ul["comb"][::7])
+            for ch in full:
+                for route in ROUTES:
+                    yield route, "t/" + self.fresh(), [("string", "fi" + ch + "ld")], "lookalike-field-name"
+                    yield route, "t/" + self.fresh(), [("string", "fild" + ch)], "lookalike-field-name"
+                    yield route, "tst/ty" + ch + "e", [("string", "f")], "lookalike-type-name"
+                    yield route, "tst/tye" + ch, [("string", "f")], "lookalike-type-name"
+                yield "ctor", "t/" + self.fresh(), [("string", ch + "fild")], "lookalike-field-name"
+                yield "json", ch + "tst", [("string", "f")], "lookalike-type-name"
         # 2. crafted payloads (would create the tripwire file if executed)
         for route in ROUTES:
             for p in pay["type_name"]:
@@ -906,7 +968,10 @@ def run(ctx):
         "frame to RecordPacker.unpack, a JSON descriptor line to JsonRecordPacker.unpack and an Avro schema with embedded "
         "definition: every symbol of a %d-symbol hostile alphabet (ASCII punctuation, NUL, CR, LF, tab, quotes, unicode "
         "look-alikes and separators, a lone surrogate) x {prefix, middle, suffix} x {type name, field name, field type} x 4 "
-        "routes (plus constructor and descriptor frame with every name delivered as BYTES: invalid / truncated / overlong UTF-8 at "
+        "routes; every BMP character whose lower/upper/casefold is ASCII alphanumeric (U+0130, U+0131, U+017F, U+212A, ligatures ...) and a "
+        "sample of fullwidth / mathematical / other-script digits / combining look-alikes at EVERY position of a field name and of a "
+        "type name on every route (thorough: all BMP characters that NFKC-normalise to ASCII alphanumerics, all str.isdigit() "
+        "characters, combining marks) (plus constructor and descriptor frame with every name delivered as BYTES: invalid / truncated / overlong UTF-8 at "
         "every position); injection payloads per template position carrying a tripwire; names with one trailing newline at every "
         "position; a keyword-named field next to an invalid / reserved / underscore name at every position; EXHAUSTIVELY every "
         "list of <= 3 field names over {valid, keyword, reserved, underscore, invalid, trailing newline}; all Python keywords as field and type names; template identifiers; reserved and underscore names; every "
